@@ -21,6 +21,8 @@ type CloneCase struct {
 	// EmptyByDel: before cloning, every extension is removed again with DelExtension, which
 	// leaves an empty extension list with spare capacity (as does reusing a Packet for Unmarshal)
 	EmptyByDel bool `json:"empty_by_del"`
+	// PayloadOffset: value of the (deprecated, but exported) header field of that name before cloning
+	PayloadOffset int `json:"payload_offset,omitempty"`
 	// Both: after cloning, the mutation is applied to BOTH sides (with different values):
 	// each side must then show its own change only
 	Both bool `json:"both"`
@@ -29,9 +31,9 @@ type CloneCase struct {
 var subC20 = register("C20", "clone", checkC20)
 
 func fullObs(p *rtp.Packet) string {
-	s := fmt.Sprintf("V%d P%v X%v M%v PT%d seq%d ts%d ssrc%d csrc%v prof%#x pad%d payload=%s ids=%v",
+	s := fmt.Sprintf("V%d P%v X%v M%v PT%d seq%d ts%d ssrc%d csrc%v prof%#x pad%d payload=%s payloadoffset=%d ids=%v",
 		p.Version, p.Padding, p.Extension, p.Marker, p.PayloadType, p.SequenceNumber, p.Timestamp, p.SSRC,
-		append([]uint32{}, p.CSRC...), p.ExtensionProfile, p.PaddingSize, hb(p.Payload), p.GetExtensionIDs())
+		append([]uint32{}, p.CSRC...), p.ExtensionProfile, p.PaddingSize, hb(p.Payload), p.PayloadOffset, p.GetExtensionIDs())
 	for _, id := range p.GetExtensionIDs() {
 		s += fmt.Sprintf(" %d=%s", id, hb(p.GetExtension(id)))
 	}
@@ -42,9 +44,9 @@ func fullObs(p *rtp.Packet) string {
 }
 
 func hdrObs(h *rtp.Header) string {
-	s := fmt.Sprintf("V%d P%v X%v M%v PT%d seq%d ts%d ssrc%d csrc%v prof%#x ids=%v",
+	s := fmt.Sprintf("V%d P%v X%v M%v PT%d seq%d ts%d ssrc%d csrc%v prof%#x payloadoffset=%d ids=%v",
 		h.Version, h.Padding, h.Extension, h.Marker, h.PayloadType, h.SequenceNumber, h.Timestamp, h.SSRC,
-		append([]uint32{}, h.CSRC...), h.ExtensionProfile, h.GetExtensionIDs())
+		append([]uint32{}, h.CSRC...), h.ExtensionProfile, h.PayloadOffset, h.GetExtensionIDs())
 	for _, id := range h.GetExtensionIDs() {
 		s += fmt.Sprintf(" %d=%s", id, hb(h.GetExtension(id)))
 	}
@@ -231,6 +233,7 @@ func checkC20(r *run, c *CloneCase) (CaseInfo, error) {
 		}
 		ci.class("extensions-emptied-by-del")
 	}
+	orig.PayloadOffset = c.PayloadOffset
 	before := fullObs(orig)
 	cl := orig.Clone()
 	if cl == nil {
@@ -381,6 +384,9 @@ func genCloneCase(t *rapid.T) *CloneCase {
 		c.Model.Payload = genBytesN(t, "bigpayloadbytes", rapid.SampledFrom([]int{1499, 1500, 1501, 1600, 2048, 4096, 9000, 65536}).Draw(t, "bigpayloadlen"))
 	}
 	c.FromWire = genBool(t, "fromwire")
+	if genBool(t, "haspayloadoffset") {
+		c.PayloadOffset = rapid.SampledFrom([]int{12, 20, 1, -1, 65536}).Draw(t, "payloadoffset")
+	}
 	c.NilPayload = genBool(t, "nilpayload")
 	c.Mut = rapid.SampledFrom([]string{"payload", "csrc", "extval", "extval", "setnew", "setreplace", "setlonger", "del", "scalar", "padsize"}).Draw(t, "mut")
 	c.Index = rapid.IntRange(0, 4095).Draw(t, "index")
@@ -407,7 +413,7 @@ func genCloneCase(t *rapid.T) *CloneCase {
 	return c
 }
 
-const ruleC20 = "C01's well-formed packets (built through the API, or obtained from Unmarshal so that all slices alias one wire buffer; nil and empty payload/CSRC) x one mutation {flip payload byte, change CSRC entry, flip a byte of an extension value through the slice GetExtension returns, SetExtension new/replace, DelExtension, scalar field, padding size} applied to the original or to the clone, or a different new extension set on BOTH sides; optionally the extension list is first emptied again with DelExtension (length 0, spare capacity); oracle: clone observably equal (all fields, ids, values, Marshal bytes), untouched side unchanged after the mutation, as are a second clone of the original and a clone of the clone taken before it, and a clone of the untouched side taken after it; same for Header.Clone. Non-trivial = the mutation was applicable; distinct = FNV-64 of the JSON case"
+const ruleC20 = "C01's well-formed packets (built through the API, or obtained from Unmarshal so that all slices alias one wire buffer; nil and empty payload/CSRC; the deprecated PayloadOffset header field set or not) x one mutation {flip payload byte, change CSRC entry, flip a byte of an extension value through the slice GetExtension returns, SetExtension new/replace, DelExtension, scalar field, padding size} applied to the original or to the clone, or a different new extension set on BOTH sides; optionally the extension list is first emptied again with DelExtension (length 0, spare capacity); oracle: clone observably equal (all fields, ids, values, Marshal bytes), untouched side unchanged after the mutation, as are a second clone of the original and a clone of the clone taken before it, and a clone of the untouched side taken after it; same for Header.Clone. Non-trivial = the mutation was applicable; distinct = FNV-64 of the JSON case"
 
 func TestC20(t *testing.T) {
 	r := begin(t, "C20", "exploration", ruleC20)
